@@ -68,8 +68,10 @@ BerEvOK(ev) ==
   /\ ev.d_k = ev.k /\ ev.d_ncw = ev.ncw
   /\ LET P == [t \in 1..Len(ev.pat) |-> ev.pat[t] = 1] IN ev.d_n * Len(ev.pat) = ev.ncw * Ch!Trues(P)
   /\ Abs(ev.d_rate_m * ev.d_n - ev.k * 1000) <= ev.d_n
-  /\ Len(ev.lines) = ev.npoints                                                      \* one result line per requested Eb/N0
-  /\ \A t \in 1..Len(ev.lines) : ev.lines[t].ebn0_c = -400 + 100 * (t - 1) /\ BerLineOK(ev.lines[t], ev.k, ev.target, TRUE)
+  \* one result line per requested Eb/N0: min, min + step, ... up to and not beyond max (centi-dB; the harness uses exactly representable grids)
+  /\ ev.npoints = EbN0Points(ev.min_c, ev.max_c, ev.step_c) /\ Len(ev.lines) = ev.npoints
+  /\ \A t \in 1..Len(ev.lines) : ev.lines[t].ebn0_c = ev.min_c + ev.step_c * (t - 1) /\ ev.lines[t].ebn0_c <= ev.max_c
+                                  /\ BerLineOK(ev.lines[t], ev.k, ev.target, TRUE)
   /\ (ev.bch > 0 => Len(ev.lines_ldpc) = ev.npoints
                     /\ \A t \in 1..Len(ev.lines_ldpc) : BerLineOK(ev.lines_ldpc[t], ev.k, ev.target, FALSE)
                                                        /\ ev.lines_ldpc[t].frames = ev.lines[t].frames
